@@ -5,7 +5,9 @@
    rank-by-rank model of Dist.v (what the code does). *)
 open Io
 
-let join = String.concat " ; "
+(* every per-rank string of the MPI driver ends with the verdict of the request-discipline monitor
+   (harness/pmpi_trace.hpp); the code as modelled satisfies the discipline *)
+let join l = String.concat " ; " (List.map (fun s -> s ^ " PMPI ok") l)
 let nranks cp = List.length cp
 let ranks cp = List.init (nranks cp) (fun r -> r)
 let check_parts (a : Crs.crs) rp cp =
@@ -72,6 +74,16 @@ let () =
     let y1 = Dist.dist_spmv sc sc.Scalar.s1 d (chunks_vec cp x1) sc.Scalar.s0 z in
     let y2 = Dist.dist_spmv sc sc.Scalar.s1 d (chunks_vec cp x2) sc.Scalar.s0 z in
     join (List.map2 (fun a b -> show_vec a ^ " " ^ show_vec b) y1 y2));
+
+  reg "spmvres" (fun t -> let a = t_crs t in let rp = t_ivec t in let cp = t_ivec t in
+    let x1 = t_vec t in let f = t_vec t in let x2 = t_vec t in let x3 = t_vec t in
+    check_parts a rp cp;
+    let d = Dist.split sc a rp cp in
+    let z = chunks_vec rp (List.map (fun _ -> sc.Scalar.s0) a.Crs.rows) in
+    let y1 = Dist.dist_spmv sc sc.Scalar.s1 d (chunks_vec cp x1) sc.Scalar.s0 z in
+    let r2 = Dist.dist_residual sc (chunks_vec rp f) d (chunks_vec cp x2) z in
+    let y3 = Dist.dist_spmv sc sc.Scalar.s1 d (chunks_vec cp x3) sc.Scalar.s0 z in
+    join (List.map2 (fun (a, b) c -> show_vec a ^ " " ^ show_vec b ^ " " ^ show_vec c) (List.combine y1 r2) y3));
 
   reg "inner" (fun t -> let p = t_ivec t in let x = t_vec t in let y = t_vec t in
     if Dist.psum p <> List.length x || List.length x <> List.length y then raise (Model_exc "runtime_error");
@@ -157,3 +169,67 @@ let () =
     let a = t_crs t in let p = t_ivec t in
     check_parts a p p;
     join (List.map show_s (Dist.dist_gershgorin_spec sc (scale <> 0) a (List.length p))))
+
+(* ---- message-passing model (DistMsg.v) ---- *)
+(* canonical text of a rank's trace, as harness/pmpi_trace.hpp prints it: request variables = handles,
+   buffers: receive slice i = b<i>, send slice j = b<nr+j>; 8 bytes per value; writes are not MPI calls *)
+let show_trace (p : Dist.cpat) (prog : Vec.vec DistMsg.prog) =
+  let nr = List.length (Dist.nbrs p.Dist.cp_recv) in
+  let ev = function
+    | DistMsg.Irecv (h, s, q, t) -> [Printf.sprintf "R%d:%d:%d:%d:b%d" h q t (8 * List.length (List.nth p.Dist.cp_recv q)) s]
+    | DistMsg.Isend (h, b, q, t) -> [Printf.sprintf "S%d:%d:%d:%d:b%d" h q t (8 * List.length (List.nth p.Dist.cp_send q)) (nr + b)]
+    | DistMsg.Wait [] -> []
+    | DistMsg.Wait hs -> ["W" ^ String.concat "," (List.map string_of_int hs)]
+    | DistMsg.Write _ -> [] in
+  match List.concat_map ev prog with [] -> "-" | l -> String.concat " " l
+
+(* parse one trace token back into an event (the oracle runs on the IMPLEMENTATION's trace) *)
+let parse_ev (tok : string) : Vec.vec DistMsg.ev =
+  let body = String.sub tok 1 (String.length tok - 1) in
+  let num s = int_of_string s in
+  match tok.[0] with
+  | 'W' -> DistMsg.Wait (List.map num (String.split_on_char ',' body))
+  | c -> (match String.split_on_char ':' body with
+          | [h; q; t; _bytes; b] ->
+              let b = num (String.sub b 1 (String.length b - 1)) in
+              if c = 'R' then DistMsg.Irecv (num h, b, num q, num t)
+              else if c = 'S' then DistMsg.Isend (num h, b, num q, num t)
+              else failwith ("bad trace token " ^ tok)
+          | _ -> failwith ("bad trace token " ^ tok))
+
+let () =
+  (* xtrace A rparts cparts x1 x2 : the program of two consecutive ghost exchanges (DistMsg.exch_rounds, proved
+     disciplined and equal to Dist.exchange under every admissible schedule) in the shim's trace format *)
+  reg "xtrace" (fun t -> let a = t_crs t in let rp = t_ivec t in let cp = t_ivec t in
+    let x1 = t_vec t in let x2 = t_vec t in
+    check_parts a rp cp;
+    let d = Dist.split sc a rp cp in
+    let pats = Dist.dm_pattern sc d in
+    let w = DistMsg.exch_rounds sc 1003 pats [chunks_vec cp x1; chunks_vec cp x2] in
+    join (List.map2 show_trace pats w));
+
+  (* msgcheck np (n tok*n)*np : the extracted discipline checkers of DistMsg.v on the traces the shim recorded
+     on the np ranks (oracle stage).  (a)+(f) all_waited, (d) slots_exclusive, (c) chans_exclusive per rank;
+     channel balance (as many sends q->r with tag t as receives on r from q with tag t) over the world.
+     send_stable is vacuous here: the shim cannot see the writes (it compares buffer snapshots instead). *)
+  reg "msgcheck" (fun t -> let np = t_i t in
+    let w = List.init np (fun _ -> t_list t (fun t -> parse_ev (next t))) in
+    let bad = ref [] in
+    List.iteri (fun r p ->
+      if not (DistMsg.all_waited p) then bad := Printf.sprintf "all_waited@%d" r :: !bad;
+      if not (DistMsg.send_stable p) then bad := Printf.sprintf "send_stable@%d" r :: !bad;
+      if not (DistMsg.slots_exclusive p) then bad := Printf.sprintf "slots_exclusive@%d" r :: !bad;
+      if not (DistMsg.chans_exclusive p) then bad := Printf.sprintf "chans_exclusive@%d" r :: !bad) w;
+    List.iteri (fun q pq -> List.iter (function
+      | DistMsg.Isend (_, _, r, tg) ->
+          let ns = List.length (DistMsg.positions (DistMsg.is_send_to r tg) pq) in
+          let nrcv = if r < np then DistMsg.count (DistMsg.is_recv_from q tg) (List.nth w r) else -1 in
+          if ns <> nrcv then bad := Printf.sprintf "unbalanced@%d->%d:%d" q r tg :: !bad
+      | _ -> ()) pq) w;
+    List.iteri (fun r pr -> List.iter (function
+      | DistMsg.Irecv (_, _, q, tg) ->
+          let nrcv = DistMsg.count (DistMsg.is_recv_from q tg) pr in
+          let ns = if q < np then List.length (DistMsg.positions (DistMsg.is_send_to r tg) (List.nth w q)) else -1 in
+          if ns <> nrcv then bad := Printf.sprintf "unbalanced@%d->%d:%d" q r tg :: !bad
+      | _ -> ()) pr) w;
+    if !bad = [] then "OK" else "FAIL " ^ String.concat " " (List.sort_uniq compare !bad))
